@@ -1109,7 +1109,8 @@ def parse_multipart_form_data(
     if final_boundary_index == -1:
         raise HTTPInputError("Invalid multipart/form-data: no final boundary found")
     parts = data[:final_boundary_index].split(b"--" + boundary + b"\r\n")
-    if len(parts) > config.max_parts:
+    # split() also returns what precedes the first delimiter; it is not a part.
+    if len(parts) - 1 > config.max_parts:
         raise HTTPInputError("multipart/form-data has too many parts")
     for part in parts:
         if not part:
